@@ -421,6 +421,13 @@ def build_unit(repo: Path, template: Path, checks=False):
         i += 1
         while not lines[i].strip().startswith("//@END"):
             l = lines[i].strip()
+            # configuration qualifier: //@PROOF[checks] ... applies only when verifying the `checks` configuration
+            mq = re.match(r"(//@\w+)\[(checks|nochecks)\](.*)", l)
+            if mq:
+                if (mq.group(2) == "checks") != bool(checks):
+                    i += 1
+                    continue
+                l = mq.group(1) + mq.group(3)
             if l.startswith("//@SIG"):
                 sig = l[len("//@SIG"):].strip()
             elif l.startswith("//@SPEC"):
